@@ -166,6 +166,7 @@ def check(ctx: Ctx) -> None:
                       % detail, fn.path, fn.lineno, operand='per-block')
     _check_pathloss(ctx)
     _check_superposition(ctx)
+    _check_direction_aware_count(ctx)
     # ------------------------------------------------------------------ C03.e
     ctx.rule('C03.e', 'DSF: dense-tap memo cannot go stale; profile arrays frozen', floor=8)
     analyse_class(ctx, 'C03.e', TDL_IR, 'TdlImpulseResponse')
@@ -332,6 +333,77 @@ def _check_superposition(ctx: Ctx) -> None:
         if not ok:
             ctx.violation('C03.d', construct, 'per-link superposition broken: %s' % '; '.join(problems), fn.path, fn.lineno,
                           operand='indices')
+
+
+def _check_direction_aware_count(ctx: Ctx) -> None:
+    """C03.i: whether a 1-D signal is 'one transmit stream' is decided by the transmit side of the CURRENT direction."""
+    from ..astutil import cond_values
+    M = ctx.model
+    ctx.rule('C03.i', 'TdlChannel: the antenna count that decides if a 1-D signal is a single transmit stream is the receive-side count of the '
+                      'generator when the direction is switched and the transmit-side count otherwise', floor=1)
+    cls = M.cls('TdlChannel')
+    cands = [f for f in cls.methods.values() if 'prepare_transmit_signal_shape' in f.name]
+    if len(cands) != 1:
+        ctx.error('C03.i: TdlChannel has %d prepare_transmit_signal_shape helpers (one expected; cannot tell)' % len(cands))
+    fn = cands[0]
+    sn = fn.self_name or 'self'
+    ctx.instance('C03.i', fn.qualname)
+    sig = [p for p in fn.params if p != sn][0]
+
+    def getter_expr(attr: str):
+        p = M.lookup_property(cls, attr)
+        if p is None or p[0] is None:
+            return None
+        rets = [n.value for n in walk_no_nested(p[0].node) if isinstance(n, ast.Return) and n.value is not None]
+        # the regular (MIMO) value; constant returns are the "no such dimension" sentinels
+        real = [r for r in rets if not isinstance(r, (ast.Constant, ast.UnaryOp))]
+        return real[0] if len(real) == 1 else None
+
+    def axis_of(e: ast.AST):
+        """index i if e is self._fading_generator.shape[i] (through count properties), else None"""
+        a = is_self_attr(e, sn)
+        if a is not None:
+            g = getter_expr(a)
+            return axis_of(g) if g is not None else None
+        if isinstance(e, ast.Subscript) and isinstance(e.slice, ast.Constant) and norm(e.value).endswith('_fading_generator.shape'):
+            return e.slice.value
+        return None
+
+    tests = [n for n in walk_no_nested(fn.node) if isinstance(n, ast.If)
+             and any(norm(c).replace(' ', '') == '%s.ndim==1' % sig for c in ast.walk(n.test) if isinstance(c, ast.Compare))]
+    if not tests:
+        ctx.error('C03.i: no `%s.ndim == 1` decision in %s (cannot tell)' % (sig, fn.qualname))
+    problems = []
+    seen = set()
+    for t in tests:
+        try:
+            paths = cond_values(fn, t)
+        except OverflowError:
+            ctx.error('C03.i: too many paths in %s' % fn.qualname)
+        for conds, env in paths:
+            sw = [c for c in conds if 'switched_direction' in c]
+            switched = None
+            if len(sw) == 1 and sw[0].replace(' ', '') in ('%s.switched_direction' % sn, 'not%s.switched_direction' % sn):
+                switched = not sw[0].startswith('not')
+            from ..astutil import _subst_env
+            cmp = [c for c in ast.walk(_subst_env(t.test, env)) if isinstance(c, ast.Compare) and len(c.ops) == 1 and isinstance(c.ops[0], ast.Eq)
+                   and isinstance(c.comparators[0], ast.Constant) and c.comparators[0].value == 1 and 'ndim' not in norm(c.left)]
+            if len(cmp) != 1:
+                ctx.error('C03.i: the single-stream decision `%s` has no antenna count compared with 1 (cannot tell)' % norm(t.test)[:70])
+            ax = axis_of(cmp[0].left)
+            if ax is None:
+                ctx.error('C03.i: cannot trace `%s` back to an axis of the generator shape (cannot tell)' % norm(cmp[0].left)[:50])
+            for case in ([switched] if switched is not None else [True, False]):
+                seen.add(case)
+                want = 1 if case else 2
+                if ax != want:
+                    problems.append('with the direction %sswitched the decision looks at axis %d of the generator shape, the transmit side is axis %d'
+                                    % ('' if case else 'not ', ax, want))
+    ok = not problems and seen == {True, False}
+    ctx.obligation('C03.i', fn.qualname, ok, {'problems': sorted(set(problems)), 'directions_covered': sorted(seen)})
+    if not ok:
+        ctx.violation('C03.i', fn.qualname, 'single-stream decision ignores the current direction: %s' % '; '.join(sorted(set(problems)) or ['a direction is not covered']),
+                      fn.path, fn.lineno, operand='direction-aware')
 
 
 def _check_discretize(ctx: Ctx) -> None:
